@@ -128,6 +128,8 @@ package gocql
 //@   props C04 C05
 //@   modifies f.buf
 //@   may_soft_panic
+// memory in proportion to the bytes received: no reservation sized by a count read from the wire
+//@   alloc_bound len(f.buf)
 //@   ensures !soft_panic() ==> errMap != nil && len(f.buf) <= old(len(f.buf)) - 4
 //@   loop 0: invariant 0 <= i && errMap != nil && len(f.buf) <= old(len(f.buf)) - 4
 
